@@ -39,6 +39,23 @@ def rerun(ctx, case_lines):
     return bool(r[0][1])
 
 
+def rerun_hist(ctx, seq):
+    """Re-run a sequence of recorded cases (each a list of trace lines, first line = Case) in order in one driver process
+    (one worker: the pooled Request / Response objects and body buffers are carried from case to case) and validate;
+    True = rejected again."""
+    drv = lib.go_build("c11")
+    d = ctx.sub("rerun_hist")
+    cf = os.path.join(d, "cases.ndjson")
+    with open(cf, "w") as f:
+        for cl in seq:
+            c = json.loads(cl[0])
+            c.pop("ev", None)
+            f.write(json.dumps(c) + "\n")
+    traces, _ = _drive(ctx, drv, cf, d, chunks=1)
+    r = lib.validate(ctx, TRACE[0], TRACE[1], traces, count=False)
+    return bool(r[0][1])
+
+
 def _event_counts(traces, names):
     cnt = {n: 0 for n in names}
     for t in traces:
@@ -91,7 +108,7 @@ def run_client_cuts(ctx):
     Returns counts."""
     drv = lib.go_build("c11")
     r = _cut_runs(ctx, drv, 2 if ctx.quick else 1, "c02")
-    lib.handle_rejections(ctx, r["res"], lambda cl: rerun(ctx, cl))
+    lib.handle_rejections(ctx, r["res"], lambda cl: rerun(ctx, cl), rerun_hist=lambda seq: rerun_hist(ctx, seq))
 
     def differs_under_cut(recs):
         # what a split-dependent parse looks like: one fragmentation returns a different header value
@@ -133,12 +150,10 @@ def run(ctx):
         raise lib.Infra("driver ran %d cases, TLC generated %d" % (ncases, n))
     # 4. validate
     res = lib.validate(ctx, TRACE[0], TRACE[1], traces, timeout=1700)
-    lib.handle_rejections(ctx, res, lambda cl: rerun(ctx, cl))
+    lib.handle_rejections(ctx, res, lambda cl: rerun(ctx, cl), rerun_hist=lambda seq: rerun_hist(ctx, seq))
     # 5. fragmentations (client direction of C02; the full set runs under C02)
     cut = _cut_runs(ctx, drv, 6 if q else 2, "c11")
-    known_before = list(ctx.known)
-    lib.handle_rejections(ctx, cut["res"], lambda cl: rerun(ctx, cl))
-    ctx.known[:] = known_before          # the KNOWN-FINDING lines were already printed for the grid
+    lib.handle_rejections(ctx, cut["res"], lambda cl: rerun(ctx, cl), rerun_hist=lambda seq: rerun_hist(ctx, seq))
 
     # 6. binding self-tests
     def wrong_target(recs):
